@@ -30,7 +30,12 @@ const (
 	baseURL = "http://" + host + "/base.crl"
 )
 
-func deltaURL(j int) string { return fmt.Sprintf("http://%s/delta%d.crl", host, j) }
+func deltaURL(j int) string {
+	if j < 0 {
+		return fmt.Sprintf("https://%s/delta-tls.crl", host)
+	}
+	return fmt.Sprintf("http://%s/delta%d.crl", host, j)
+}
 
 // Ops of a history.
 var opNames = []string{"fetch", "publish", "put-fresh", "put-older", "put-base-expired", "put-delta-expired", "put-no-nextupdate",
@@ -39,7 +44,7 @@ var opNames = []string{"fetch", "publish", "put-fresh", "put-older", "put-base-e
 var faultKinds = []string{"error", "404", "garbage", "non-crl-der"}
 
 // Shapes of the base CRL's freshest-CRL extension.
-var shapes = []string{"absent", "uri1", "uri2", "uri3", "nonuri-dp-then-uri-dp", "nonuri-only", "uri-after-nonuri", "malformed", "empty-seq"}
+var shapes = []string{"absent", "uri1", "uri2", "uri3", "nonuri-dp-then-uri-dp", "nonuri-only", "uri-after-nonuri", "malformed", "empty-seq", "https-only", "https-then-http"}
 
 // Case is one history with its configuration.
 type Case struct {
@@ -79,6 +84,10 @@ func advertisedIdx(shape string) (u []int, malformed bool) {
 		return []int{2, 0, 1}, false
 	case "nonuri-dp-then-uri-dp":
 		return []int{0}, false
+	case "https-only":
+		return []int{-1}, false // advertised, but not obtainable over plain HTTP
+	case "https-then-http":
+		return []int{-1, 0}, false
 	case "uri-after-nonuri":
 		if eitherCounts {
 			return []int{0}, false
@@ -112,7 +121,7 @@ func freshestRaw(shape string) []byte {
 	switch shape {
 	case "absent":
 		return nil
-	case "uri1", "uri2", "uri3":
+	case "uri1", "uri2", "uri3", "https-only", "https-then-http":
 		u, _ := advertised(shape)
 		return pki.CDPDER(u)
 	case "nonuri-dp-then-uri-dp":
@@ -218,6 +227,9 @@ func (m *model) fetch() prediction {
 	if len(u) > 0 {
 		found := false
 		for _, k := range u {
+			if k < 0 {
+				continue // not plain HTTP: fails without a request
+			}
 			log = append(log, "GET "+deltaURL(k))
 			if m.deltaFault[k] {
 				m.deltaFault[k] = false
